@@ -1,6 +1,7 @@
 """C09 - field validation is sound, complete and atomic (Engine C, in-process message PBT)."""
 from __future__ import annotations
 
+import ctypes
 import functools
 import math
 import time
@@ -19,7 +20,8 @@ RULE = (
     "struct, struct-array: one independent campaign each), a class (56 core MDFs + 5 core structs, a hand-written family "
     "with every validator kind at several widths/lengths, or a class built from a drawn field list with nested structs "
     "and struct arrays), a field reached by a random walk through nested structs/struct-array elements, an assignment "
-    "form (scalar set, whole-array set from list/tuple/bytes/range/another message's array, element, slice with drawn "
+    "form (scalar set, whole-array set from list/tuple/bytes/range/ctypes array of any integer or float element type/another "
+    "message's array, element, slice with drawn "
     "start/stop/step) and a value from boundary sets, the full range, wrong Python types, wrong lengths, or a valid "
     "sequence with ONE bad element substituted at a drawn position (neighbours may be NaN/bool/extremes); 1-3 "
     "assignments per message, each checked against a domain model (accepted => in-domain, read-back equal, bytes "
@@ -33,7 +35,11 @@ RULE = (
 ASSUME = [
     "don't-cares (never asserted either way): bool for int/float/byte fields, NaN for float fields, '' and bytes for Char, "
     "bytes for String, bytes objects as elements of a sequence for ByteArray, Fraction/Decimal for float fields (not generated), "
-    "ctypes instances (not generated), empty slices, the exception type (any exception counts as refused)",
+    "scalar ctypes instances of a type other than the field's own and non-finite c_float/c_double scalars (the isinstance fast "
+    "path; not generated), empty slices, the exception type (any exception counts as refused)",
+    "ctypes arrays (listed by the __set__ signatures as accepted values) of any of the 8 integer element types, and c_float/"
+    "c_double, are judged element-wise on the Python values they hold: in-domain iff every element is in the field's domain and "
+    "the length matches; a scalar ctypes instance of the field's own ctype is in-domain when finite",
     "in-domain canonical values (ints in range, finite representable floats/ints, ASCII strings of length <= n-1, one ASCII "
     "char, byte 0..255 or 1-byte bytes, equal-length list/tuple/bytes/range of such, exact struct class instances, a bound "
     "array of identical element type and length) must be ACCEPTED: this is what tests/test_validators.py::test_validator_range "
@@ -117,7 +123,7 @@ def _boundary_classes(fi: FI, v, exp) -> set:
 def judge(fi: FI, form: str, k, value, before_model):
     """-> dict(verdict, cause, expected, pos, n_targets, has_nan, has_bool, bnd)"""
     j = {"verdict": "dc", "cause": "", "expected": None, "pos": None, "nt": 1, "has_nan": False, "has_bool": False,
-         "bnd": set(), "neigh": "plain"}
+         "bnd": set(), "neigh": "plain", "vform": "py"}
     if fi.kind not in ARRAY_KINDS:
         if form != "set":
             raise HarnessError(f"form {form} on scalar field")
@@ -158,8 +164,10 @@ def judge(fi: FI, form: str, k, value, before_model):
                 exp = list(value[:])
             j.update(verdict="in", expected=exp)
         return j
-    if isinstance(value, (list, tuple, bytes, bytearray, range, str) + _BOUND):
-        elems = list(value)
+    if isinstance(value, (list, tuple, bytes, bytearray, range, str, ctypes.Array) + _BOUND):
+        elems = list(value)  # a ctypes array is judged on the Python values it holds
+        if isinstance(value, ctypes.Array):
+            j["vform"] = "ctypes:" + msgs.CT_CODE.get(value._type_, "?")
     else:
         j.update(verdict="out", cause="not-a-sequence")
         return j
@@ -252,6 +260,10 @@ def do_step(root: MessageBase, step: dict, group: str, res: Result, trace: dict)
     res.count(f"{group}:{fc}:{verdict}:{'refused' if raised is not None else 'accepted'}")
     if verdict == "out":
         res.count(f"{group}:out:{j['cause']}")
+    if j["vform"] != "py":
+        res.count(f"{group}:ctypes-array:{verdict}:{'refused' if raised is not None else 'accepted'}")
+    if isinstance(value, ctypes._SimpleCData):
+        res.count(f"{group}:ctypes-scalar:{verdict}:{'refused' if raised is not None else 'accepted'}")
     ctx = "-next-to-nan" if (verdict == "out" and j["has_nan"]) else ""
     if raised is not None:
         if after != before:
@@ -284,13 +296,15 @@ def do_step(root: MessageBase, step: dict, group: str, res: Result, trace: dict)
         pc = _posclass(j["pos"], j["nt"])
         res.count(f"{group}:bad-position:{pc}")
         if j["pos"] > 0:
-            res.shape("bad", fi.kind, fi.code, form, j["cause"], pc, j["neigh"], _lenclass(j["nt"]))
+            res.shape("bad", fi.kind, fi.code, form, j["vform"], j["cause"], pc, j["neigh"], _lenclass(j["nt"]))
+            if j["vform"] != "py":
+                res.count("nontrivial:bad-element-at-non-first-position-of-ctypes-array")
             res.count("nontrivial:bad-element-at-non-first-position")
             if j["neigh"] == "nan":
                 res.count("nontrivial:bad-element-next-to-nan")
             res.sample({"case": desc, "verdict": "refused"}, limit=4)
     if verdict == "in" and raised is None and j["bnd"]:
-        res.shape("bnd", fi.kind, fi.code if fi.code else _lenclass(fi.n), form, tuple(sorted(j["bnd"])))
+        res.shape("bnd", fi.kind, fi.code if fi.code else _lenclass(fi.n), form, j["vform"], tuple(sorted(j["bnd"])))
         res.count("nontrivial:accepted-boundary")
         res.sample({"case": desc, "verdict": "accepted"}, limit=2)
 
@@ -462,9 +476,71 @@ def _array_source(draw, ccls: type, fi: FI):
     return {"A": msgs.ref_of(src_cls), "f": sfi.name, "init": init, "sl": None}
 
 
+_INT_SRC = st.sampled_from(msgs.INT_CODES)
+_ANY_SRC = st.sampled_from(msgs.INT_CODES + msgs.INT_CODES + msgs.FLOAT_CODES)
+_SMALL_INT = st.integers(0, 100)
+_SMALL_FLT = st.sampled_from([0.0, -0.0, 1.0, -1.5, 0.1, 3.0e38, -3.0e38, 1e-45, 16777217.0])
+
+
+def _src_edges(src: str, fi: FI):
+    """Values a ctypes array of element type `src` can hold: (in the target's domain, outside it)."""
+    if src in msgs.INT_CODES:
+        lo, hi = msgs.INT_RANGE[src]
+        cand = [lo, lo + 1, hi - 1, hi, hi // 2 + 1, -1, 0, 1, 127, 128, 255, 256, 32767, 32768, 65535, 65536,
+                2 ** 31 - 1, 2 ** 31, 2 ** 32 - 1, 2 ** 32, 2 ** 63 - 1, 2 ** 63, -128, -129, -32768, -32769, -(2 ** 31), -(2 ** 31) - 1]
+        cand = sorted({c for c in cand if lo <= c <= hi})
+    elif src == "f32":
+        cand = [0.0, -0.0, 1.0, 0.5, msgs.FLT_MAX, -msgs.FLT_MAX, 1e-45, float("inf"), float("-inf"), 100.0, -1.0]
+    else:
+        cand = [0.0, -0.0, 1.0, 0.5, msgs.FLT_MAX, -msgs.FLT_MAX, msgs.FLT_UNDER_OVER, msgs.FLT_OVER, -msgs.FLT_OVER, 1e39, -1e39,
+                msgs.DBL_MAX, -msgs.DBL_MAX, 5e-324, float("inf"), float("-inf"), 100.0]
+    good = [c for c in cand if msgs.classify_elem(fi, c, True)[0] == "in"]
+    bad = [c for c in cand if msgs.classify_elem(fi, c, True)[0] == "out"]
+    return good, bad
+
+
+@st.composite
+def _ctypes_array(draw, fi: FI, L: int):
+    """{"C": code, "v": [...]}: a ctypes array of a drawn element type; all valid, one bad element at a drawn
+    position, NaN neighbours for float sources, or a wrong length."""
+    src = draw(_ANY_SRC if fi.kind == "farr" or draw(st.integers(0, 7)) == 0 else _INT_SRC)
+    good, bad = _src_edges(src, fi)
+    mode = draw(st.sampled_from(["valid", "valid", "one-bad", "one-bad", "one-bad", "wrong-len"]))
+    n = L
+    if mode == "wrong-len":
+        n = draw(st.sampled_from(sorted({max(0, L - 1), L + 1, 0, L + 7} - {L})))
+    base = _SMALL_FLT if src in msgs.FLOAT_CODES else _SMALL_INT
+    fill = st.one_of(base, st.sampled_from(good)) if good else base
+    vals = [draw(fill) for _ in range(min(n, 6))]
+    if n > 6:
+        f = draw(fill)
+        vals = (vals + [f] * n)[:n] if draw(st.booleans()) else ([f] * n + vals)[-n:]
+    if src in msgs.FLOAT_CODES and n and draw(st.integers(0, 3)) == 0:
+        vals[draw(st.integers(0, n - 1))] = float("nan")
+    if mode == "one-bad" and bad and n:
+        vals[draw(st.integers(0, n - 1))] = draw(st.sampled_from(bad))
+    return {"C": src, "v": [enc(x) for x in vals]}
+
+
+@functools.lru_cache(maxsize=8192)
+def _own_ctype_scalar(fi: FI):
+    """A scalar ctypes instance of the field's own element type (always inside the domain when finite)."""
+    code = fi.code if fi.kind in ("int", "iarr", "float", "farr") else "byte"
+    if code in msgs.FLOAT_CODES:
+        vals = st.sampled_from([0.0, -0.0, 1.0, -1.5, 0.1, msgs.FLT_MAX, -msgs.FLT_MAX, 1e-45] + ([msgs.DBL_MAX, 5e-324, 1e39] if code == "f64" else []))
+        return vals.map(lambda x: {"c": code, "v": enc(x)})
+    lo, hi = msgs.INT_RANGE[code]
+    return st.one_of(st.sampled_from([lo, hi, 0, 1]), st.integers(lo, hi)).map(lambda x: {"c": code, "v": enc(x)})
+
+
 @st.composite
 def _seq_value(draw, ccls: type, fi: FI, L: int, whole: bool):
-    mode = draw(st.sampled_from(["valid", "valid", "one-bad", "one-bad", "one-bad", "dc-mix", "wrong-len", "not-a-seq", "source"]))
+    mode = draw(st.sampled_from(["valid", "valid", "one-bad", "one-bad", "one-bad", "dc-mix", "wrong-len", "not-a-seq", "source",
+                                 "ctypes", "ctypes"]))
+    if mode == "ctypes":
+        if fi.kind in ("iarr", "farr", "bytes"):
+            return draw(_ctypes_array(fi, L))
+        mode = "one-bad"
     if mode == "source" and not whole:
         mode = "one-bad"
     if mode == "source":
@@ -505,6 +581,8 @@ def _step(draw, cls: type, kinds: frozenset, prefill: bool = False):
         d = _elem_dc(fi)
         if d is not None:
             alts.append(d)
+        if fi.kind in ("int", "float", "byte"):
+            alts.append(_own_ctype_scalar(fi))
         step["v"] = draw(st.one_of(alts))
         return step
     if prefill:
@@ -523,6 +601,8 @@ def _step(draw, cls: type, kinds: frozenset, prefill: bool = False):
         if fi.kind == "bytes":
             alts.append(msgs.byte_in())
             alts.append(msgs.byte_out())
+        if fi.kind in ("iarr", "farr", "bytes"):
+            alts.append(_own_ctype_scalar(fi))
         alts.append(st.sampled_from([enc([]), enc(()), enc([0]), enc((0,)), enc(b""), enc(b"ab")]))
         step["v"] = draw(st.one_of(alts))
     else:
